@@ -88,6 +88,50 @@ fn best_worst(seed: u64, shard: usize, rounds: usize, rep: &mut Report) {
     }
 }
 
+/// The same clauses on the library's own individual type, with *repeated genomes* carrying
+/// different results (re-scored or noisy individuals): ordering must follow the results.
+fn ec_individuals(seed: u64, shard: usize, rounds: usize, rep: &mut Report) {
+    use crate::common::ind_s;
+    for r in 0..rounds {
+        let mut g = Xo::derive(seed, "C07-ec", (shard * 1_000_003 + r) as u64);
+        let n = 1 + g.usize_below(8);
+        let genomes = 1 + g.usize_below(3);
+        let pop: Vec<_> = (0..n).map(|_| ind_s(g.below(genomes as u64) as u32, &[g.range(-3, 3), g.range(-3, 3)])).collect();
+        let total = |i: &crate::common::IndS| i.test_results.total_result.0;
+        let max = pop.iter().map(total).max().unwrap();
+        let min = pop.iter().map(total).min().unwrap();
+        let mut rng = TraceRng::new(g.next());
+        rep.eval();
+        rep.distinct(mix(fnv_str("ec"), fnv_str(&format!("{:?}", pop.iter().map(|i| (i.genome, total(i))).collect::<Vec<_>>()))));
+        let show = |pop: &Vec<crate::common::IndS>| pop.iter().map(|i| json!({"genome": i.genome, "total": i.test_results.total_result.0})).collect::<Vec<_>>();
+        match catch(|| Best.select(&pop, &mut rng).map(total)) {
+            Ok(Ok(v)) if v == max => rep.count("EcIndividual/Best:ok"),
+            other => rep.violation("C07/Best/not-extremal", || json!({"population": show(&pop), "expected_total": max, "observed": format!("{other:?}")})),
+        }
+        match catch(|| Worst.select(&pop, &mut rng).map(total)) {
+            Ok(Ok(v)) if v == min => rep.count("EcIndividual/Worst:ok"),
+            other => rep.violation("C07/Worst/not-extremal", || json!({"population": show(&pop), "expected_total": min, "observed": format!("{other:?}")})),
+        }
+        // whole-population tournament = best selection; any tournament: winner at least as
+        // good as k-1 others
+        for k in 1..=n {
+            let sel = Tournament::new(NonZeroUsize::new(k).unwrap());
+            for _ in 0..4 {
+                rep.eval();
+                match catch(|| sel.select(&pop, &mut rng).map(total)) {
+                    Ok(Ok(v)) => {
+                        let le = pop.iter().filter(|i| total(i) <= v).count();
+                        if le < k || (k == n && v != max) {
+                            rep.violation("C07/Tournament/winner-among-the-k-1-worst", || json!({"population": show(&pop), "tournament_size": k, "winner_total": v}));
+                        }
+                    }
+                    other => rep.violation("C07/Tournament/failed", || json!({"population": show(&pop), "tournament_size": k, "observed": format!("{other:?}")})),
+                }
+            }
+        }
+    }
+}
+
 fn patterns(n: usize) -> Vec<(&'static str, Vec<i64>)> {
     let mut v = vec![("distinct", (0..n as i64).map(|x| (x * 7 + 3) % n as i64).collect::<Vec<_>>())];
     if n >= 2 {
@@ -235,6 +279,7 @@ pub fn run(args: &Args) -> i32 {
     let bw = run_shards(16, args.threads, 16 << 20, |s| {
         let mut rep = Report::new();
         best_worst(args.seed, s, bw_rounds / 16, &mut rep);
+        ec_individuals(args.seed, s, bw_rounds / 16, &mut rep);
         rep
     });
     rep.merge(bw);
